@@ -54,8 +54,11 @@ SampleCases == { [kind |-> "samples", cls |-> c, ns |-> n, dtype |-> d, fields |
 SampleObservables == {"values", "parameters", "namespace", "dtype", "fields", "beta", "evidence", "class"}
 
 (* ---- histories ----------------------------------------------------------- *)
+\* number of stored populations: small counts, and counts whose decimal group names sort
+\* differently as text than as numbers (10 and more, 100 and more)
+HistPops == (0..3) \cup {10, 11, 23, 101}
 HistoryCases == { [kind |-> "history", cls |-> c, npops |-> n, ns |-> ns, real |-> r] :
-                    c \in {"FlowHistory", "SMCHistory"}, n \in 0..3, ns \in {"numpy", "torch", "jax"}, r \in BOOLEAN }
+                    c \in {"FlowHistory", "SMCHistory"}, n \in HistPops, ns \in {"numpy", "torch", "jax"}, r \in BOOLEAN }
 
 (* ---- transforms and flows ------------------------------------------------ *)
 TransformCases == { [kind |-> "transform", cls |-> c, fitted |-> f, ns |-> n, dtype |-> d] :
